@@ -193,6 +193,11 @@ def generate(rng, tier):
     # names that differ only by letter case (ASCII and non-ASCII) are different names
     for names in ((b"Width", b"width"), (b"width", b"WIDTH", b"Width"), ("\u00e9t\u00e9".encode(), "\u00c9T\u00c9".encode()), (b"a", b"A", b"b")):
         yield "amf0 enc " + show_all([("O", [(nm, ("N", rng.next())) for nm in names]), ("A", [("O", [(nm, ("B", True)) for nm in names])])])
+    # many containers side by side (not nested): a decoder that counts open containers must count them closed again
+    for n in (33, 40, 100, 300):
+        yield "amf0 enc " + show_all([("A", [("N", rng.next())])] * n + [("S", b"tail")])
+        yield "amf0 enc " + show_all([("A", [("A", [])] * n), ("O", [(("a%d" % j).encode(), ("A", [("B", True)])) for j in range(n)])])
+        yield "amf0 enc " + show_all([("O", [(b"k", ("Z",))])] * n + [("A", [("O", [(b"x", ("A", []))])] * n)])
     for i in range(n_enc):
         vs = [rand_value(rng, rng.below(5)) for _ in range(rng.range(0, 4))]
         if rng.chance(1, 40):      # sprinkle an inexpressible name / string deep inside
@@ -205,6 +210,15 @@ def generate(rng, tier):
         vs = [rand_value(rng, rng.below(4), True) for _ in range(rng.range(1, 3))]
         enc = b"".join(ref_enc(v) for v in vs)
         yield "amf0 decx %s Ok %s" % (hexs(enc), show_all([denotes(v) for v in vs], True))
+    # --- conformant nesting of every container kind (the format puts no bound on depth; recursion of the Python reference encoder
+    #     limits these to a few hundred levels, the deep/deepx cases go further with strict arrays only) ---
+    for depth in (8, 9, 10, 16, 17, 18, 32, 33, 64, 65, 128, 200):
+        for kind in ("A", "O", "E", "mix"):
+            v = ("S", b"core")
+            for lvl in range(depth):
+                kk = kind if kind != "mix" else ("A", "O", "E")[(lvl + depth) % 3]
+                v = ("A", [v]) if kk == "A" else (("O", [(b"p", v)]) if kk == "O" else ("E", rng.choice([0, 1, 7]), [(b"e", v)]))
+            yield "amf0 decx %s Ok %s" % (hexs(ref_enc(v) + b"\x05"), show_all([denotes(v), ("Z",)], True))
     # --- all 256 markers at a value position (top level, in an array, as a property value) ---
     for m in range(256):
         tail = rng.bytes(rng.below(12))
@@ -220,6 +234,14 @@ def generate(rng, tier):
             continue
         for k in range(len(enc)):
             yield "amf0 dect %d %s %s" % (k, hexs(enc), show_all(vs, True))
+    # --- property names that read as (large) array indices, in ECMA arrays and objects: names are names, never sizes ---
+    for key in (b"0", b"7", b"65535", b"2000000", b"99999999", b"4294967294", b"4294967295", b"18446744073709551615", b"1e9", b"-1"):
+        for cnt in (0, 1, 0x00200000, 0xFFFFFFFF):
+            c4 = struct.pack(">I", cnt).hex()
+            k = struct.pack(">H", len(key)).hex() + key.hex()
+            yield "amf0 decm 08%s%s05000009" % (c4, k)
+            yield "amf0 decm 08%s0001300101%s000000000000000000000009" % (c4, k)
+        yield "amf0 decm 03%s05000009" % (struct.pack(">H", len(key)).hex() + key.hex())
     # --- declared lengths / counts far larger than the data present (memory must follow the input, not the claim) ---
     for cnt in (0, 1, 2, 1000, 1000000, 0x7FFFFFFF, 0xFFFFFFFF):
         c4 = struct.pack(">I", cnt).hex()
